@@ -436,7 +436,7 @@ impl ByteVisitor {
                             if got != (exp == Expect::Accept) || matches!(o, Out::Broken(_)) {
                                 t.violation(
                                     "",
-                                    format!("{name}: {} byte input the reference {} ({:?}; {})", if got { "accepts" } else { "rejects" }, if got { "rejects" } else { "accepts" }, exp, o.brief()),
+                                    format!("{name}: {} byte input the reference {} ({:?}; {})", if got { "accepts" } else { "does not accept" }, if exp == Expect::Accept { "accepts" } else { "rejects" }, exp, o.brief()),
                                     bytes_case(bytes, strict, name),
                                 );
                             }
